@@ -407,6 +407,12 @@ class AggregatedFrame(ProtocolDataUnit):
                 (pdu_size,) = struct.unpack_from('!H', data, offset)
             except struct.error:
                 raise DecodeError("aggregated PDU length field error in AGF")
+            if pdu_size >= 2 and len(data) >= offset + 4:
+                # an aggregated AGF PDU is not allowed, decoding it would
+                # recurse once per nesting level
+                (header,) = struct.unpack_from('!H', data, offset+2)
+                if (header >> 6) & 0b1111 == 0b0010:
+                    raise DecodeError("AGF PDU must not contain an AGF PDU")
             agf_pdu.append(decode(data, offset+2, pdu_size))
             offset, size = offset + 2 + pdu_size, size - 2 - pdu_size
         return agf_pdu
